@@ -82,6 +82,7 @@ def units(tier, seed):
             u.append(dict(kind="three_deep", first=i))
     u.append(dict(kind="extras"))
     u.append(dict(kind="laws"))
+    u.append(dict(kind="long"))
     for i in range(len(FR2)):
         u.append(dict(kind="sum", first=i))
     for pat in range(4):
@@ -250,6 +251,13 @@ def run_unit(unit, acc):
             for cur in FR2:
                 for ex in ("other-label", "unknown-est", "both"):
                     check_case(dict(kind="extras", hist=[list(map(list, p)), list(map(list, cur))], extra=ex), acc)
+    elif k == "long":
+        # 30-frame histories built by cycling through every frame of the alphabet with three strides
+        for stride in (1, 5, 11):
+            for start in range(0, len(FR2), 4):
+                h = [()] + [FR2[(start + stride * i) % len(FR2)] for i in range(30)]
+                for gcount in (3, 40):
+                    check_case(dict(kind="hist", hist=[list(map(list, f)) for f in h], G=gcount, mode="CENTERDISTANCE"), acc)
     elif k == "laws":
         for n in range(1, 7):
             check_case(dict(kind="law", law="perfect", n=n), acc)
